@@ -16,6 +16,7 @@ pub fn run_property(property: &str, tier: Tier) -> i32 {
     let mut report = Report::new(property, tier, "model_checking");
     run_family_into(&mut report, property, family, configs, tier);
     if property == "C10" { super::deque::run(&mut report, tier); }
+    if property == "C07" { super::settings::run(&mut report); }
     report.finish()
 }
 
